@@ -46,6 +46,7 @@ const (
 	vfFaultEOFWithData = 2 // EOF returned together with the last bytes
 	vfFaultErr         = 3 // arbitrary non-EOF error
 	vfFaultTimeout     = 4 // net.Error with Timeout() == true
+	vfFaultTransient   = 5 // a timeout error reported once; later reads deliver the rest
 )
 
 const (
@@ -66,6 +67,7 @@ type vfConn struct {
 	spos      int
 	nreads    int
 	rerr      error
+	transientDone bool
 
 	ops     []vfOp
 	wfailAt int // index among write-side ops (Write, SetWriteDeadline); -1: never
@@ -96,6 +98,11 @@ func (c *vfConn) Read(p []byte) (int, error) {
 		return 0, c.rerr
 	}
 	avail := c.cut - c.rpos
+	if avail <= 0 && c.rfault == vfFaultTransient && !c.transientDone {
+		c.transientDone = true
+		c.cut = len(c.in)
+		return 0, &vfNetErr{timeout: true}
+	}
 	if avail <= 0 {
 		c.rerr = c.faultErr()
 		return 0, c.rerr
